@@ -171,10 +171,37 @@ class LayoutFamily(Family):
         return res
 
 
+class SparseFamily(Family):
+    """The same states given as sparse containers: only the qubits prepared in 1 are listed, every other qubit defaults to 0."""
+    name = 'sparse-containers(d=3)'
+    rule = ('distance 3, every subset of data qubits and every subset of ancilla qubits listed as ONE in a sparse InitialStateContainer (unlisted qubits default to ZERO) x cycles {0,1,2,4} x '
+            'explicit chain description; non-trivial = at least one qubit is listed')
+
+    def shards(self, tier):
+        return [0, 1, 2, 4]
+
+    def cases(self, tier, shard):
+        for bits in itertools.product((0, 1), repeat=5):
+            yield (shard, bits)
+
+    def run(self, case):
+        cycles, bits = case
+        res = Res()
+        d = 3
+        data, anc = bits[:d], bits[d:]
+        init = InitialStateContainer(initial_states={i: S.ONE for i, b in enumerate(data) if b}, ancilla_initial_states={j: S.ONE for j, b in enumerate(anc) if b})
+        desc = RepetitionCodeDescription.from_chain(2 * d - 1, qubit_refocusing=True)
+        c = construct_repetition_code_circuit(qec_cycles=cycles, description=desc, initial_state=init)
+        res.outcome = judge(res, 'sparse input %r' % (case,), c, data, anc, cycles, True, [2 * i for i in range(d)], [2 * j + 1 for j in range(d - 1)])
+        res.transitions = 3
+        res.trivial = not any(bits)
+        return res
+
+
 def families(tier):
     if tier == 'quick':
-        return [ChainFamily(3, 6), ChainFamily(4, 4), LayoutFamily(3, (0, 1, 2, 3, 4))]
-    return [ChainFamily(4, 6), ChainFamily(5, 4), LayoutFamily(4, (0, 1, 2, 3, 4, 5), states='all'), LayoutFamily(9, (0, 1, 3))]
+        return [ChainFamily(3, 6), ChainFamily(4, 4), LayoutFamily(3, (0, 1, 2, 3, 4)), SparseFamily()]
+    return [ChainFamily(4, 6), ChainFamily(5, 4), LayoutFamily(4, (0, 1, 2, 3, 4, 5), states='all'), LayoutFamily(9, (0, 1, 3)), SparseFamily()]
 
 
 def signature(f):
